@@ -161,6 +161,14 @@ class Interp:
             if not self.truth(b > 0):
                 raise Unsupported('modulo by a non-positive value')
             return a % b
+        if op is ast.LShift and isinstance(b, int):
+            return a * (1 << b)
+        if op in (ast.BitOr, ast.BitAnd, ast.BitXor):
+            if isinstance(a, int) and isinstance(b, int):
+                return {ast.BitOr: a | b, ast.BitAnd: a & b, ast.BitXor: a ^ b}[op]
+            # bit-wise combination of symbolic ints: an uninterpreted function (the kernels' post-conditions do not depend on it)
+            f = z3.Function('bit' + op.__name__, z3.IntSort(), z3.IntSort(), z3.IntSort())
+            return f(a if z3.is_expr(a) else z3.IntVal(a), b if z3.is_expr(b) else z3.IntVal(b))
         raise Unsupported(f'binop {op.__name__}')
 
     def ev_UnaryOp(self, n, env):
